@@ -87,6 +87,10 @@ static void *salloc(size_t n)
 }
 static void sfree_all(void) { size_t i; for (i = 0; i < g_nscratch; i++) free(g_scratch[i]); g_nscratch = 0; }
 
+#ifdef PBCV_GEN
+#include "gen_table.inc"      /* written by tools/genpipe.py: generated header, descriptor table, INIT objects, services */
+#endif
+
 /* ---- dynamic schema ----------------------------------------------------------------------- */
 typedef struct {
 	int group;          /* oneof group or -1 */
@@ -99,7 +103,8 @@ typedef struct {
 	char dkind;         /* '-', 'V' scalar, 'S' string, 'B' bytes, 'E' empty string */
 } FieldX;
 typedef struct {
-	ProtobufCMessageDescriptor d;
+	ProtobufCMessageDescriptor dyn;            /* storage for a descriptor built at run time */
+	const ProtobufCMessageDescriptor *dp;      /* the descriptor in use (== &dyn, or a generated one) */
 	ProtobufCFieldDescriptor *f;
 	FieldX *x;
 	unsigned *by_name;
@@ -107,6 +112,7 @@ typedef struct {
 	int ngroups;
 	unsigned *group_case_off, *group_union_off;
 	int initmode;
+	int gen;
 } MsgX;
 static MsgX *g_msgs; static int g_nmsgs;
 
@@ -163,8 +169,11 @@ static void free_schema(void)
 	int i; unsigned j;
 	for (i = 0; i < g_nmsgs; i++) {
 		MsgX *mx = &g_msgs[i];
-		for (j = 0; j < mx->d.n_fields; j++) { free((char *) mx->f[j].name); free(mx->x[j].dflt_data); }
-		free((char *) mx->d.name); free(mx->f); free(mx->x); free(mx->by_name); free(mx->ranges);
+		if (!mx->gen) {
+			for (j = 0; j < mx->dp->n_fields; j++) { free((char *) mx->f[j].name); free(mx->x[j].dflt_data); }
+			free((char *) mx->dp->name); free(mx->f);
+		}
+		free(mx->x); free(mx->by_name); free(mx->ranges);
 		free(mx->group_case_off); free(mx->group_union_off);
 	}
 	free(g_msgs); g_msgs = NULL; g_nmsgs = 0;
@@ -188,17 +197,18 @@ static void read_schema(FILE *in, int nmsgs)
 		tokenize(g_line);
 		if (strcmp(tok(), "msg")) die("expected msg");
 		(void) tok_ll();
-		mx->d.magic = PROTOBUF_C__MESSAGE_DESCRIPTOR_MAGIC;
-		mx->d.name = strdup(tok());
-		mx->d.short_name = mx->d.name; mx->d.c_name = mx->d.name; mx->d.package_name = "";
-		mx->d.n_fields = tok_ll();
+		mx->dp = &mx->dyn;
+		mx->dyn.magic = PROTOBUF_C__MESSAGE_DESCRIPTOR_MAGIC;
+		mx->dyn.name = strdup(tok());
+		mx->dyn.short_name = mx->dyn.name; mx->dyn.c_name = mx->dyn.name; mx->dyn.package_name = "";
+		mx->dyn.n_fields = tok_ll();
 		mx->initmode = tok_ll();
 		mx->ngroups = tok_ll();
-		mx->f = calloc(mx->d.n_fields + 1, sizeof(ProtobufCFieldDescriptor));
-		mx->x = calloc(mx->d.n_fields + 1, sizeof(FieldX));
+		mx->f = calloc(mx->dyn.n_fields + 1, sizeof(ProtobufCFieldDescriptor));
+		mx->x = calloc(mx->dyn.n_fields + 1, sizeof(FieldX));
 		mx->group_case_off = calloc(mx->ngroups + 1, sizeof(unsigned));
 		mx->group_union_off = calloc(mx->ngroups + 1, sizeof(unsigned));
-		for (j = 0; j < mx->d.n_fields; j++) {
+		for (j = 0; j < mx->dyn.n_fields; j++) {
 			ProtobufCFieldDescriptor *f = &mx->f[j];
 			FieldX *x = &mx->x[j];
 			const char *d;
@@ -222,8 +232,28 @@ static void read_schema(FILE *in, int nmsgs)
 			d = tok();
 			if (d[0] == 'V') { x->has_init = 1; x->init_bits = strtoull(d + 1, NULL, 16); }
 		}
+#ifdef PBCV_GEN
+		/* generated code: descriptor, struct layout and init function come from protoc-gen-c's output */
+		if (i >= (int) (sizeof pbcv_gen_msgs / sizeof pbcv_gen_msgs[0])) die("schema has more messages than the generated file");
+		{
+			const ProtobufCMessageDescriptor *gd = pbcv_gen_msgs[i];
+			if (gd->n_fields != mx->dyn.n_fields) die("generated descriptor has a different number of fields");
+			for (j = 0; j < gd->n_fields; j++) {
+				if (gd->fields[j].id != mx->f[j].id) die("generated descriptor: field numbers differ");
+				free((char *) mx->f[j].name);
+				if (mx->x[j].dkind == 'B') { free(mx->x[j].dflt_data); mx->x[j].dflt_data = ((const ProtobufCBinaryData *) gd->fields[j].default_value)->data; }
+				else if (mx->x[j].dkind == 'S') { free(mx->x[j].dflt_data); mx->x[j].dflt_data = NULL; }
+			}
+			free(mx->f);
+			free((char *) mx->dyn.name);
+			mx->f = (ProtobufCFieldDescriptor *) gd->fields;
+			mx->dp = gd;
+			mx->gen = 1;
+			continue;
+		}
+#endif
 		/* layout */
-		for (j = 0; j < mx->d.n_fields; j++) {
+		for (j = 0; j < mx->dyn.n_fields; j++) {
 			ProtobufCFieldDescriptor *f = &mx->f[j];
 			FieldX *x = &mx->x[j];
 			if (x->group >= 0) continue;
@@ -235,51 +265,52 @@ static void read_schema(FILE *in, int nmsgs)
 			}
 		}
 		for (g = 0; g < mx->ngroups; g++) { mx->group_case_off[g] = off; off += 8; mx->group_union_off[g] = off; off += 16; }
-		for (j = 0; j < mx->d.n_fields; j++) {
+		for (j = 0; j < mx->dyn.n_fields; j++) {
 			ProtobufCFieldDescriptor *f = &mx->f[j];
 			FieldX *x = &mx->x[j];
 			if (x->group < 0) continue;
 			f->quantifier_offset = mx->group_case_off[x->group];
 			f->offset = mx->group_union_off[x->group];
 		}
-		mx->d.sizeof_message = off;
-		mx->d.fields = mx->d.n_fields ? mx->f : NULL;   /* the generator emits NULL for an empty message */
+		mx->dyn.sizeof_message = off;
+		mx->dyn.fields = mx->dyn.n_fields ? mx->f : NULL;   /* the generator emits NULL for an empty message */
 		/* name index */
-		mx->by_name = calloc(mx->d.n_fields + 1, sizeof(unsigned));
-		for (j = 0; j < mx->d.n_fields; j++) mx->by_name[j] = j;
-		qsort_r(mx->by_name, mx->d.n_fields, sizeof(unsigned), cmp_name_idx, mx);
-		mx->d.fields_sorted_by_name = mx->by_name;
+		mx->by_name = calloc(mx->dyn.n_fields + 1, sizeof(unsigned));
+		for (j = 0; j < mx->dyn.n_fields; j++) mx->by_name[j] = j;
+		qsort_r(mx->by_name, mx->dyn.n_fields, sizeof(unsigned), cmp_name_idx, mx);
+		mx->dyn.fields_sorted_by_name = mx->by_name;
 		/* ranges (as protoc-gen-c/c_helpers.cc WriteIntRanges builds them) */
-		mx->ranges = calloc(mx->d.n_fields + 2, sizeof(ProtobufCIntRange));
+		mx->ranges = calloc(mx->dyn.n_fields + 2, sizeof(ProtobufCIntRange));
 		{
 			unsigned nr = 0;
-			if (mx->d.n_fields > 0) {
+			if (mx->dyn.n_fields > 0) {
 				int last = mx->f[0].id, cnt = 1;
 				mx->ranges[nr].start_value = last; mx->ranges[nr].orig_index = 0; nr++;
-				for (j = 1; j < mx->d.n_fields; j++) {
+				for (j = 1; j < mx->dyn.n_fields; j++) {
 					if ((int) mx->f[j].id != last + cnt) {
 						last = mx->f[j].id; cnt = 1;
 						mx->ranges[nr].start_value = last; mx->ranges[nr].orig_index = j; nr++;
 					} else cnt++;
 				}
 			}
-			mx->ranges[nr].start_value = 0; mx->ranges[nr].orig_index = mx->d.n_fields;
-			mx->d.n_field_ranges = nr; mx->d.field_ranges = mx->ranges;
+			mx->ranges[nr].start_value = 0; mx->ranges[nr].orig_index = mx->dyn.n_fields;
+			mx->dyn.n_field_ranges = nr; mx->dyn.field_ranges = mx->ranges;
 		}
-		mx->d.message_init = (mx->initmode == 0) ? (i < NTRAMP ? g_tramp[i] : NULL) : NULL;
+		mx->dyn.message_init = (mx->initmode == 0) ? (i < NTRAMP ? g_tramp[i] : NULL) : NULL;
 		if (mx->initmode == 0 && i >= NTRAMP) die("too many messages for trampolines");
 	}
 	for (i = 0; i < nmsgs; i++) {
 		MsgX *mx = &g_msgs[i];
-		for (j = 0; j < mx->d.n_fields; j++)
-			if (mx->x[j].sub >= 0) mx->f[j].descriptor = &g_msgs[mx->x[j].sub].d;
+		if (mx->gen) continue;
+		for (j = 0; j < mx->dyn.n_fields; j++)
+			if (mx->x[j].sub >= 0) mx->f[j].descriptor = g_msgs[mx->x[j].sub].dp;
 	}
 }
 
 static MsgX *mx_of(const ProtobufCMessageDescriptor *d)
 {
 	int i;
-	for (i = 0; i < g_nmsgs; i++) if (&g_msgs[i].d == d) return &g_msgs[i];
+	for (i = 0; i < g_nmsgs; i++) if (g_msgs[i].dp == d) return &g_msgs[i];
 	die("unknown descriptor");
 	return NULL;
 }
@@ -288,9 +319,9 @@ static MsgX *mx_of(const ProtobufCMessageDescriptor *d)
 static void dyn_init(MsgX *mx, ProtobufCMessage *m)
 {
 	unsigned j;
-	memset(m, 0, mx->d.sizeof_message);
-	m->descriptor = &mx->d;
-	for (j = 0; j < mx->d.n_fields; j++) {
+	memset(m, 0, mx->dp->sizeof_message);
+	m->descriptor = mx->dp;
+	for (j = 0; j < mx->dp->n_fields; j++) {
 		ProtobufCFieldDescriptor *f = &mx->f[j];
 		FieldX *x = &mx->x[j];
 		void *p = (char *) m + f->offset;
@@ -350,9 +381,9 @@ static ProtobufCMessage *parse_msg(void)
 	unsigned j, nu, k;
 	if (strcmp(tok(), "M")) die("expected M");
 	mx = &g_msgs[tok_ll()];
-	m = salloc(mx->d.sizeof_message);
-	m->descriptor = &mx->d;
-	for (j = 0; j < mx->d.n_fields; j++) {
+	m = salloc(mx->dp->sizeof_message);
+	m->descriptor = mx->dp;
+	for (j = 0; j < mx->dp->n_fields; j++) {
 		ProtobufCFieldDescriptor *f = &mx->f[j];
 		FieldX *x = &mx->x[j];
 		void *p = (char *) m + f->offset, *q = (char *) m + f->quantifier_offset;
@@ -429,7 +460,7 @@ static void dump_msg(const ProtobufCMessage *m)
 	MsgX *mx = mx_of(m->descriptor);
 	unsigned j, k;
 	printf("M %d", (int) (mx - g_msgs));
-	for (j = 0; j < mx->d.n_fields; j++) {
+	for (j = 0; j < mx->dp->n_fields; j++) {
 		ProtobufCFieldDescriptor *f = &mx->f[j];
 		FieldX *x = &mx->x[j];
 		const void *p = (const char *) m + f->offset, *q = (const char *) m + f->quantifier_offset;
@@ -481,6 +512,7 @@ static void *rec_alloc(void *ctx, size_t size)
 	if (g_mask) { if ((size_t) k < g_masklen) refuse = g_mask[k] == '1'; else refuse = g_mask_tail; }
 	if (refuse) { g_refused++; if (g_trace) trace_add(" r%zu", size); return NULL; }
 	p = malloc(size ? size : 1);
+	memset(p, 0xFF, size ? size : 1);      /* a caller's allocator owes nobody zeroed memory */
 	if (g_nblocks == g_capblocks) { g_capblocks = g_capblocks ? 2 * g_capblocks : 256; g_blocks = realloc(g_blocks, g_capblocks * sizeof(Block)); }
 	g_blocks[g_nblocks].p = p; g_blocks[g_nblocks].size = size; g_blocks[g_nblocks].id = g_next_id++;
 	if (g_trace) trace_add(" a%d:%zu", g_blocks[g_nblocks].id, size);
@@ -568,7 +600,7 @@ static void op_unpack(int with_mask)
 	if (with_mask) { mask = tok(); tail = tok_ll(); if (mask[0] == '-') mask = ""; g_trace = 1; }
 	rec_reset(mask, tail);
 	g_n_err = 0;
-	m = protobuf_c_message_unpack(&mx->d, &g_rec, n, in);
+	m = protobuf_c_message_unpack(mx->dp, &g_rec, n, in);
 	if (!m) printf("fail");
 	else { printf("ok "); dump_msg(m); }
 	if (m) protobuf_c_message_free_unpacked(m, &g_rec);
@@ -589,7 +621,7 @@ static void op_unpacksys(void)
 	ProtobufCMessage *m;
 	long a, f;
 	rec_reset(NULL, 0);
-	m = protobuf_c_message_unpack(&mx->d, NULL, n, in);
+	m = protobuf_c_message_unpack(mx->dp, NULL, n, in);
 	a = g_sys_malloc_calls;
 	if (m) protobuf_c_message_free_unpacked(m, NULL);
 	f = g_sys_free_calls;
@@ -630,7 +662,7 @@ static void op_acc(void)
 	uint8_t *in = exact_copy(raw, n);
 	ProtobufCMessage *m;
 	rec_reset(NULL, 0);
-	m = protobuf_c_message_unpack(&mx->d, &g_rec, n, in);
+	m = protobuf_c_message_unpack(mx->dp, &g_rec, n, in);
 	if (!m) { printf("fail live=%zu\n", g_nblocks); free(raw); free(in); return; }
 	{
 		int chk = protobuf_c_message_check(m);
@@ -643,7 +675,7 @@ static void op_acc(void)
 		printf("ok check=%d size=%zu same3=%d pack=", chk, sz, (w == sz && w3 == sz && rb.len == sz && (sz == 0 || memcmp(rb.data, b, sz) == 0)));
 		put_hex(b, w);
 		in2 = exact_copy(b, w);
-		m2 = protobuf_c_message_unpack(&mx->d, &g_rec, w, in2);
+		m2 = protobuf_c_message_unpack(mx->dp, &g_rec, w, in2);
 		if (!m2) printf(" re=fail");
 		else {
 			size_t sz2 = protobuf_c_message_get_packed_size(m2);
@@ -670,8 +702,8 @@ static void op_check(void)
 static void op_init(void)
 {
 	MsgX *mx = &g_msgs[tok_ll()];
-	ProtobufCMessage *m = salloc(mx->d.sizeof_message);
-	if (mx->d.message_init) protobuf_c_message_init(&mx->d, m); else message_init_generic(&mx->d, m);
+	ProtobufCMessage *m = salloc(mx->dp->sizeof_message);
+	if (mx->dp->message_init) protobuf_c_message_init(mx->dp, m); else message_init_generic(mx->dp, m);
 	printf("init "); dump_msg(m); printf("\n");
 }
 
@@ -714,8 +746,8 @@ static void op_lookup(void)
 	const char *k = tok();
 	MsgX *mx = &g_msgs[tok_ll()];
 	const ProtobufCFieldDescriptor *f;
-	if (!strcmp(k, "fnum")) f = protobuf_c_message_descriptor_get_field(&mx->d, (unsigned) tok_ll());
-	else f = protobuf_c_message_descriptor_get_field_by_name(&mx->d, tok());
+	if (!strcmp(k, "fnum")) f = protobuf_c_message_descriptor_get_field(mx->dp, (unsigned) tok_ll());
+	else f = protobuf_c_message_descriptor_get_field_by_name(mx->dp, tok());
 	printf("idx=%d\n", f ? (int) (f - mx->f) : -1);
 }
 
@@ -730,6 +762,72 @@ static void op_ranges(void)
 	printf("\n");
 	free(r);
 }
+
+/* desc <ty>: every descriptor member the runtime or a user can observe, offsets reduced to what is
+   layout-independent (has a quantifier member or not; all member extents inside the struct and disjoint) */
+static int cmp_ext(const void *a, const void *b) { const unsigned *x = a, *y = b; return x[0] < y[0] ? -1 : x[0] > y[0]; }
+static void op_desc(void)
+{
+	MsgX *mx = &g_msgs[tok_ll()];
+	const ProtobufCMessageDescriptor *d = mx->dp;
+	unsigned j, nr;
+	int layout_ok = 1;
+	unsigned (*ext)[2] = malloc((2 * d->n_fields + 2) * sizeof *ext);
+	unsigned ne = 0;
+	printf("magic=%d name=%s short=%s cname=%s pkg=%s nf=%u init=%d fields=", d->magic == PROTOBUF_C__MESSAGE_DESCRIPTOR_MAGIC,
+	       d->name ? d->name : "(null)", d->short_name ? d->short_name : "(null)", d->c_name ? d->c_name : "(null)",
+	       d->package_name ? d->package_name : "(null)", d->n_fields, d->message_init != NULL);
+	for (j = 0; j < d->n_fields; j++) {
+		const ProtobufCFieldDescriptor *f = &d->fields[j];
+		int subidx = -1, k;
+		char dk = '-';
+		if (f->type == PROTOBUF_C_TYPE_MESSAGE) for (k = 0; k < g_nmsgs; k++) if (g_msgs[k].dp == f->descriptor) subidx = k;
+		printf("%s%s:%u:%d:%d:%u:%d:%d:", j ? "," : "", f->name ? f->name : "(null)", f->id, (int) f->label, (int) f->type, f->flags,
+		       f->quantifier_offset != 0, subidx);
+		if (f->default_value) {
+			if (f->type == PROTOBUF_C_TYPE_STRING) {
+				if (f->default_value == (const void *) protobuf_c_empty_string) printf("E");
+				else { printf("S"); put_hex(f->default_value, strlen(f->default_value)); }
+			} else if (f->type == PROTOBUF_C_TYPE_BYTES) {
+				const ProtobufCBinaryData *bd = f->default_value; printf("B"); put_hex(bd->data, bd->len);
+			} else if (is32(f->type)) printf("V%x", *(const uint32_t *) f->default_value);
+			else if (is64(f->type)) printf("V%llx", (unsigned long long) *(const uint64_t *) f->default_value);
+			else printf("?");
+		} else printf("%c", dk);
+		/* extents for the disjointness check: value member, and quantifier member unless shared (oneof) */
+		{
+			unsigned vs = f->label == PROTOBUF_C_LABEL_REPEATED ? 8 : (f->type == PROTOBUF_C_TYPE_BYTES ? 16 : (is32(f->type) ? 4 : 8));
+			if (!(f->flags & PROTOBUF_C_FIELD_FLAG_ONEOF)) {
+				ext[ne][0] = f->offset; ext[ne][1] = f->offset + vs; ne++;
+				if (f->quantifier_offset) { ext[ne][0] = f->quantifier_offset; ext[ne][1] = f->quantifier_offset + (f->label == PROTOBUF_C_LABEL_REPEATED ? 8 : 4); ne++; }
+			} else if (f->offset + vs > d->sizeof_message || f->quantifier_offset + 4 > d->sizeof_message || f->quantifier_offset < sizeof(ProtobufCMessage)) layout_ok = 0;
+		}
+	}
+	qsort(ext, ne, sizeof *ext, cmp_ext);
+	for (j = 0; j < ne; j++) {
+		if (ext[j][0] < sizeof(ProtobufCMessage) || ext[j][1] > d->sizeof_message) layout_ok = 0;
+		if (j && ext[j][0] < ext[j - 1][1]) layout_ok = 0;
+	}
+	free(ext);
+	printf(" byname=");
+	for (j = 0; j < d->n_fields; j++) printf("%s%u", j ? "," : "", d->fields_sorted_by_name ? d->fields_sorted_by_name[j] : 0);
+	printf(" ranges=");
+	nr = d->n_field_ranges;
+	for (j = 0; j < nr + (d->n_fields ? 1 : 0); j++) printf("%s%d:%u", j ? "," : "", d->field_ranges[j].start_value, d->field_ranges[j].orig_index);
+	printf(" layout_ok=%d\n", layout_ok);
+}
+
+#ifdef PBCV_GEN
+#include "gen_svc.inc"        /* service fixtures and op_svc, written by tools/genpipe.py */
+/* initdump <ty>: the static <MSG>__INIT value, member by member */
+static void op_initdump(void)
+{
+	int ty = (int) tok_ll();
+	printf("init "); dump_msg((const ProtobufCMessage *) pbcv_gen_inits[ty]); printf("\n");
+}
+#else
+static void op_initdump(void) { op_init(); }
+#endif
 
 #include "leaf_dispatch.inc"
 
@@ -769,6 +867,11 @@ static void run_op(const char *op)
 	else if (!strcmp(op, "lookup")) op_lookup();
 	else if (!strcmp(op, "ranges")) op_ranges();
 	else if (!strcmp(op, "leaf")) op_leaf();
+	else if (!strcmp(op, "desc")) op_desc();
+	else if (!strcmp(op, "initdump")) op_initdump();
+#ifdef PBCV_GEN
+	else if (!strcmp(op, "svc")) op_svc();
+#endif
 	else printf("bad-op\n");
 	sfree_all();
 }
@@ -792,7 +895,7 @@ static void *mt_worker(void *arg)
 		size_t idx = (k + (rounds ? 0 : 0)) % g_nin;      /* same order in every thread: digests must be equal */
 		MtInput *x = &g_in[idx];
 		MsgX *mx = &g_msgs[x->ty];
-		ProtobufCMessage *m = protobuf_c_message_unpack(&mx->d, NULL, x->len, x->bytes);
+		ProtobufCMessage *m = protobuf_c_message_unpack(mx->dp, NULL, x->len, x->bytes);
 		const ProtobufCFieldDescriptor *f;
 		if (!m) { t->fail++; h = fnv(h, "F", 1); continue; }
 		t->ok++;
@@ -808,10 +911,10 @@ static void *mt_worker(void *arg)
 			PROTOBUF_C_BUFFER_SIMPLE_CLEAR(&sb);
 			free(b);
 		}
-		if (mx->d.n_fields) {
-			f = protobuf_c_message_descriptor_get_field(&mx->d, mx->f[idx % mx->d.n_fields].id);
+		if (mx->dp->n_fields) {
+			f = protobuf_c_message_descriptor_get_field(mx->dp, mx->f[idx % mx->dp->n_fields].id);
 			h = fnv(h, &f->id, sizeof f->id);
-			f = protobuf_c_message_descriptor_get_field_by_name(&mx->d, mx->f[idx % mx->d.n_fields].name);
+			f = protobuf_c_message_descriptor_get_field_by_name(mx->dp, mx->f[idx % mx->dp->n_fields].name);
 			h = fnv(h, f ? "y" : "n", 1);
 		}
 		protobuf_c_message_free_unpacked(m, NULL);
